@@ -699,7 +699,12 @@ func writeFieldReadByter(name string, typ FieldType, w *iohelp.ErrorWriter, sett
 			ln = getLineWithTabs(settings.typeByteReaders[typ.Map.Key], depth+1, depthName("k", depth), typ.goString(settings))
 		}
 		w.SafeWrite([]byte(strings.Replace(ln, "=", ":=", 1)))
-		writeFieldReadByter("("+name+")["+depthName("k", depth)+"]", typ.Map.Value, w, settings, depth+1, safe)
+		// decode the value into a local and store it afterwards: an element stored under a NaN
+		// key can not be read back out of the map, neither to fill it nor to measure it
+		vName := depthName("v", depth)
+		writeLineWithTabs(w, "var "+vName+" "+typ.Map.Value.goString(settings), depth+1)
+		writeFieldReadByter(vName, typ.Map.Value, w, settings, depth+1, safe)
+		writeLineWithTabs(w, "("+name+")["+depthName("k", depth)+"] = "+vName, depth+1)
 		writeLineWithTabs(w, "}", depth)
 	} else {
 		simpleTyp := typ.Simple
